@@ -606,3 +606,7 @@ def check(run, fx, tier, floors=True):
         c15_h(run, fx)
     if floors or any(fx.body(p) is not None for p in HDR_WRITERS):
         c15_s(run, fx, floors)
+    # writers pair placeholders with the data they point at by position (name records and their strings, offsets and sub-tables):
+    # both sides of such a zip must come from the collection in the same order
+    import zipalign
+    zipalign.rule_zip(run, fx, "C15-z", select=(lambda b: "WriteBinary" in b.root or "::write" in b.root) if floors else (lambda b: "WriteBinary" in b.root), floors=floors, floor_n=6)
